@@ -96,6 +96,30 @@ def family(rng, alpha, n, L, shape, psub, pindel):
         if rng.random() < 0.3:
             rng.shuffle(out)
         return out
+    if shape == 'broom':
+        # a deep, narrow UPGMA tree (< 100 sequences): two tight pairs next to the ancestor, then a handle of items
+        # at slowly growing distance, each joined on top of everything closer; some items are PAIRS, so that nodes
+        # with two internal children ("forks") occur at many depths, also far below the root
+        Lh = len(anc)
+        def edit(s, k):
+            b = list(s)
+            for q in rng.sample(range(Lh), min(Lh, k)):
+                b[q] = rng.choice([c for c in alpha if c != b[q]])
+            return ''.join(b)
+        out = [anc, edit(anc, 1)]
+        bb = edit(anc, 3)
+        out += [bb, edit(bb, 1)]
+        step = rng.choice([2, 3])
+        ppair = rng.choice([0.08, 0.15, 0.25])
+        k = 0
+        while len(out) < n:
+            k += 1
+            item = edit(anc, 5 + k // step)
+            out.append(item)
+            if len(out) < n and rng.random() < ppair:
+                out.append(edit(item, 1))
+        rng.shuffle(out)
+        return out[:n]
     if shape == 'balanced':
         pool = [anc]
         while len(pool) < n:
@@ -194,6 +218,10 @@ def gen_workload(rng, profile=None, kinds=('dna', 'rna', 'protein'), weights=Non
         n = rng.choice([511, 512, 512, 512, 513, 1023, 1024, 1024, 1025])
         L = rng.randint(4, 10)
         shape = rng.choice(['clusters', 'balanced', 'star'])
+    elif profile == 'broom':
+        # 75-99 sequences of 500-900 residues whose guide tree is 45-75 levels deep
+        n, L = rng.randint(75, 99), rng.randint(500, 900)
+        shape = 'broom'; psub = 0.0; pindel = 0.0
     elif profile == 'manylines':
         # more than 1024 output lines in Clustal/MSF (line-buffer growth) and hundreds of rows per block
         n, L = rng.randint(150, 420), rng.randint(130, 300)
@@ -238,10 +266,10 @@ def gen_workload(rng, profile=None, kinds=('dna', 'rna', 'protein'), weights=Non
         for _ in range(rng.randint(1, max(1, n // 2))):
             seqs[rng.randrange(n)] = seqs[rng.randrange(n)]
     amb = rng.choice([0, 0, 0, 0.01, 0.03])
-    if amb and shape != 'haplotypes':        # (exact copies stay exact)
+    if amb and shape not in ('haplotypes', 'broom'):        # (exact copies stay exact)
         seqs = [sprinkle(rng, s, DNA_AMBIG if kind != 'protein' else PROT_AMBIG, amb) for s in seqs]
     foreign = rng.choice([0, 0, 0, 0, 0, 0.01, 0.04])
-    if foreign and shape != 'haplotypes':
+    if foreign and shape not in ('haplotypes', 'broom'):
         # letters kalign accepts although they are outside its alphabets (X in nucleotides; J, O, U in protein):
         # they get an internal class of their own but must come back unchanged in every output
         seqs = [sprinkle(rng, s, 'X' if kind != 'protein' else 'JOU', foreign) for s in seqs]
